@@ -302,31 +302,47 @@ def l4(e: Engine, rep: Report):
             continue
         fn = c.methods[name].node
         ok = False
+        # names assigned from len(self) before / after the super call
+        before_len, after_len = set(), set()
+        seen_super = False
+        for s_ in fn.body:
+            t = ast.unparse(s_)
+            if 'super(' in t and '.%s(' % name in t:
+                seen_super = True
+            if isinstance(s_, ast.Assign) and \
+                    isinstance(s_.targets[0], ast.Name) and \
+                    'len(self)' in ast.unparse(s_.value):
+                (after_len if seen_super else before_len).add(
+                    s_.targets[0].id)
+                # differences of the two are as good as the pair
+                if seen_super and any(nm in ast.unparse(s_.value)
+                                      for nm in before_len):
+                    before_len.add(s_.targets[0].id)
+            elif isinstance(s_, ast.Assign) and \
+                    isinstance(s_.targets[0], ast.Name) and seen_super:
+                used = {x.id for x in ast.walk(s_.value)
+                        if isinstance(x, ast.Name)}
+                if used & before_len and used & after_len:
+                    before_len.add(s_.targets[0].id)
+                    after_len.add(s_.targets[0].id)
         for n in walk_own(fn):
             if isinstance(n, ast.For) and isinstance(n.iter, ast.Call) and \
-                    ast.unparse(n.iter.func) == 'range' and \
-                    len(n.iter.args) == 2:
-                rel = [x for s in n.body for x in ast.walk(s)
+                    ast.unparse(n.iter.func) == 'range':
+                rel = [x for s_ in n.body for x in ast.walk(s_)
                        if isinstance(x, ast.Call) and
                        ast.unparse(x.func) == 'self.sema.release']
-                a, b = n.iter.args
-                if len(rel) == 1 and isinstance(a, ast.Name) and \
-                        isinstance(b, ast.Name):
-                    # a = len(self) before the super call, b after
-                    order = []
-                    for s in fn.body:
-                        t = ast.unparse(s)
-                        if isinstance(s, ast.Assign) and \
-                                ast.unparse(s.value) == 'len(self)':
-                            order.append(('len', s.targets[0].id if
-                                          isinstance(s.targets[0], ast.Name)
-                                          else '?'))
-                        elif 'super(' in t and '.%s(' % name in t:
-                            order.append(('super', ''))
-                        elif s is n:
-                            order.append(('loop', ''))
-                    ok = order == [('len', a.id), ('super', ''),
-                                   ('len', b.id), ('loop', '')]
+                used = {x.id for a in n.iter.args for x in ast.walk(a)
+                        if isinstance(x, ast.Name)}
+                after_super = False
+                for s_ in fn.body:
+                    t = ast.unparse(s_)
+                    if 'super(' in t and '.%s(' % name in t:
+                        after_super = True
+                    if s_ is n:
+                        break
+                if len(rel) == 1 and used & before_len and \
+                        used & after_len and after_super:
+                    ok = True
         rep.evaluations += 1
         rep.check(ok, 'L4', where, 'one release per added element',
                   '%s does not release the semaphore once per element '
